@@ -68,10 +68,10 @@ template <class... I> struct ichecks {
   }
 };
 void inst(any_image_view<gray8_view_t, rgb8_view_t, rgb8_planar_view_t, cmyk16_view_t> const& v, any_image_view<gray8_view_t, rgb8_view_t, rgb8_planar_view_t, cmyk16_view_t> const& w,
-          any_image_view<rgb8_view_t, k_xystep, rgb8_planar_view_t> const& v2, any_image_view<rgb8_view_t, k_xystep, rgb8_planar_view_t> const& w2, rgb8_view_t const& s,
+          any_image_view<rgb8_view_t, k_xystep, rgb8_planar_view_t, bgr8_view_t> const& v2, any_image_view<rgb8_view_t, k_xystep, rgb8_planar_view_t, bgr8_view_t> const& w2, rgb8_view_t const& s,
           any_image<gray8_image_t, rgb8_image_t, rgb8_planar_image_t, cmyk16_image_t>& a, any_image<gray8_image_t, rgb8_image_t, rgb8_planar_image_t, cmyk16_image_t> const& b) {
   checks<gray8_view_t, rgb8_view_t, rgb8_planar_view_t, cmyk16_view_t>::run(v, w, s);
-  checks<rgb8_view_t, k_xystep, rgb8_planar_view_t>::run(v2, w2, s);
+  checks<rgb8_view_t, k_xystep, rgb8_planar_view_t, bgr8_view_t>::run(v2, w2, s);
   ichecks<gray8_image_t, rgb8_image_t, rgb8_planar_image_t, cmyk16_image_t>::run(a, b);
 }
 '''
@@ -119,6 +119,7 @@ def run(rep):
     rep.floor("rule:D2-factory", 30)
     rep.floor("rule:D1-functor", 6)
     rep.floor("rule:D1-incompatible", 2)
+    rep.floor("compatible_pairs_of_different_types", 1)
 
 
 def is_any(t):
@@ -192,6 +193,41 @@ def forwarding(rep, fns):
                 rep.ok("D1-incompatible", key + ":" + f["full"][-25:], "throw std::bad_cast()")
             else:
                 rep.violation("D1-incompatible", key, R.fn_where(f), {"body": [R.key(s)[:80] for s in stmts]})
+        if nm == "boost::gil::binary_operation_obj::operator()" and len(f["params"]) == 2:
+            # the compile-time tag that selects apply_compatible / apply_incompatible is `the two views are compatible`:
+            # same channel type and same colour space, whatever the layout order or planarity
+            def sig(t):
+                m = re.search(r"pixel<([^,]+), boost::gil::layout<boost::mp11::mp_list<([^>]*)>", t) or re.search(r"planar_pixel_iterator<([^,*]+?) ?\*, boost::mp11::mp_list<([^>]*)>", t)
+                return (m.group(1).replace("const ", "").strip(), m.group(2)) if m else None
+            full = f["full"]
+            i = full.rfind("operator()<")
+            targs, depth, cur = [], 0, ""
+            for ch in full[i + len("operator()<"):-1]:
+                if ch == "<":
+                    depth += 1
+                elif ch == ">":
+                    depth -= 1
+                if ch == "," and depth == 0:
+                    targs.append(cur.strip()); cur = ""
+                else:
+                    cur += ch
+            targs.append(cur.strip())
+            tags = []
+            for c, _ in R.find(f["body"], lambda x: x.get("k") == "Call" and x["callee"]["name"].endswith("::apply")):
+                for x, _p in R.find(c["args"][2], lambda y: y.get("k") in ("Construct", "InitList") and "integral_constant<bool" in (y.get("ccls") or "")):
+                    tags.append("true" in x["ccls"])
+            if len(targs) == 2 and sig(targs[0]) and sig(targs[1]) and tags:
+                rep.count("obligations:D1")
+                want = sig(targs[0]) == sig(targs[1])
+                different = targs[0] != targs[1]
+                key = "D1:binary_operation_obj::operator():tag(%s,%s)" % ("compatible" if want else "incompatible", "different types" if different else "same type")
+                if all(t == want for t in tags):
+                    rep.ok("D1-dispatch", key + full[-12:], {"channel/colour space": [sig(targs[0]), sig(targs[1])], "tag": tags})
+                else:
+                    rep.violation("D1-dispatch", key, R.fn_where(f), {"views": [sig(targs[0]), sig(targs[1])], "tag_passed": tags, "views_are_compatible": want,
+                                                                       "problem": "views of the same colour space and channel type (e.g. interleaved and planar, rgb and bgr) must take the compatible path; otherwise the dynamic algorithm throws bad_cast where the static one copies"})
+                if want and different:
+                    rep.count("compatible_pairs_of_different_types")
         if nm == "boost::gil::binary_operation_obj::apply":
             rn = R.param_renamer(f)
             cs = [c["callee"]["name"].split("::")[-1] + "(" + ",".join(rn(R.key(a)) for a in c["args"]) + ")" for c, p in R.find(f["body"], lambda x: x.get("k") == "Call" and x["callee"]["name"].split("::")[-1].startswith("apply_"))]
